@@ -30,7 +30,7 @@ INVALID = {
     "source_dir-nonexistent": "source_dir: ./nowhere\nrust:\n  log_macros:\n    - module: log\n      name: info\n",
     "source_dir-is-a-file": "source_dir: ./src/a.rs\nrust:\n  log_macros:\n    - module: log\n      name: info\n",
 }
-_ID = re.compile(rb"\[ref: ([0-9]+)\]|ref = ([0-9]+)[;,]")
+_ID = re.compile(rb"\[ref: ([0-9]+)\]|ref = ([0-9]+)(?:u32)?[;,]")
 
 
 def ids_in(b):
